@@ -20,7 +20,7 @@ def gfl (priv : String → Bool) (fs : List FieldDecl) : List Field := getFields
 theorem getFields_eq_gfl (priv : String → Bool) (d : TypeDecl) : getFields priv d = gfl priv d.fields := rfl
 
 theorem gfl_append (priv : String → Bool) (a b : List FieldDecl) : gfl priv (a ++ b) = gfl priv a ++ gfl priv b := by
-  unfold gfl getFields; exact List.filterMap_append
+  unfold gfl getFields; exact List.flatMap_append
 
 theorem gfl_nil (priv : String → Bool) : gfl priv [] = [] := rfl
 
@@ -38,9 +38,14 @@ theorem gf1_private_embedded (priv : String → Bool) (x : FieldDecl) (hn : x.na
     gf1 priv x = [] := by
   simp [gf1, gfl, getFields, hn, hp]
 
-theorem gf1_multi (priv : String → Bool) (x : FieldDecl) (hn : 2 ≤ x.names.length) : gf1 priv x = [] := by
-  match h : x.names, hn with
-  | a :: b :: l, _ => simp [gf1, gfl, getFields, h]
+/-- a declaration with names (one or several) contributes one field per name that is neither private
+nor skipped -/
+theorem gf1_names (priv : String → Bool) (x : FieldDecl) (hn : x.names ≠ []) :
+    gf1 priv x = x.names.filterMap fun n =>
+      if priv n then none else if (getField n x).2 then none else some (getField n x).1 := by
+  match h : x.names with
+  | [] => exact absurd h hn
+  | a :: l => simp [gf1, gfl, getFields, h]
 
 theorem getField_skip_dash (n : String) (x : FieldDecl) (t : String) (ht : x.tag = some t) (hd : parseTag t = "-") :
     (getField n x).2 = true := by
@@ -48,7 +53,7 @@ theorem getField_skip_dash (n : String) (x : FieldDecl) (t : String) (ht : x.tag
 
 theorem gf1_single (priv : String → Bool) (x : FieldDecl) (n : String) (hn : x.names = [n]) :
     gf1 priv x = if priv n then [] else if (getField n x).2 then [] else [(getField n x).1] := by
-  simp only [gf1, gfl, getFields, hn, List.filterMap_cons, List.filterMap_nil]
+  simp only [gf1, gfl, getFields, hn, List.flatMap_cons, List.flatMap_nil, List.filterMap_cons, List.filterMap_nil, List.append_nil]
   by_cases h1 : priv n = true
   · simp [h1]
   · by_cases h2 : (getField n x).2 = true <;> simp [h1, h2]
@@ -56,18 +61,14 @@ theorem gf1_single (priv : String → Bool) (x : FieldDecl) (n : String) (hn : x
 theorem gf1_embedded (priv : String → Bool) (x : FieldDecl) (hn : x.names = []) :
     gf1 priv x = if priv (printed x.ty) then [] else if (getField (printed x.ty) x).2 then []
       else [{ (getField (printed x.ty) x).1 with embedded := true }] := by
-  simp only [gf1, gfl, getFields, hn, List.filterMap_cons, List.filterMap_nil]
-  by_cases h1 : priv (printed x.ty) = true
-  · simp [h1]
-  · by_cases h2 : (getField (printed x.ty) x).2 = true <;> simp [h1, h2]
+  simp only [gf1, gfl, getFields, hn, List.flatMap_cons, List.flatMap_nil, List.append_nil]
 
 theorem gf1_dash (priv : String → Bool) (x : FieldDecl) (t : String) (ht : x.tag = some t) (hd : parseTag t = "-") :
     gf1 priv x = [] := by
   have h1 : ∀ n, (getField n x).2 = true := fun n => getField_skip_dash n x t ht hd
   match h : x.names with
   | [] => rw [gf1_embedded priv x h, h1]; simp
-  | [n] => rw [gf1_single priv x n h, h1]; simp
-  | a :: b :: l => exact gf1_multi priv x (by simp [h])
+  | a :: l => rw [gf1_names priv x (by simp [h])]; simp [h1]
 
 theorem gfl_insert (priv : String → Bool) (x : FieldDecl) (hx : gf1 priv x = []) (a b : List FieldDecl) :
     gfl priv (a ++ x :: b) = gfl priv (a ++ b) := by
@@ -788,13 +789,13 @@ theorem getFieldL_eq (name : String) (d : FieldDecl) : getField name d = getFiel
   | some t => simp only [parseTag_eq]
 
 def getFieldsL (priv : String → Bool) (d : TypeDecl) : List Field :=
-  d.fields.filterMap fun f =>
+  d.fields.flatMap fun f =>
     match f.names with
-    | [n] => if priv n then none else let (fl, skip) := getFieldL n f; if skip then none else some fl
     | [] =>
       let n := printed f.ty
-      if priv n then none else let (fl, skip) := getFieldL n f; if skip then none else some { fl with embedded := true }
-    | _ => none
+      if priv n then [] else let (fl, skip) := getFieldL n f; if skip then [] else [{ fl with embedded := true }]
+    | ns =>
+      ns.filterMap fun n => if priv n then none else let (fl, skip) := getFieldL n f; if skip then none else some fl
 
 theorem getFieldsL_eq (priv : String → Bool) (d : TypeDecl) : getFields priv d = getFieldsL priv d := by
   unfold getFields getFieldsL
@@ -802,8 +803,7 @@ theorem getFieldsL_eq (priv : String → Bool) (d : TypeDecl) : getFields priv d
   funext f
   match f.names with
   | [] => simp only [getFieldL_eq]
-  | [n] => simp only [getFieldL_eq]
-  | _ :: _ :: _ => rfl
+  | _ :: _ => simp only [getFieldL_eq]
 
 def getChildrenL (priv : String → Bool) (decls : List TypeDecl) : Nat → String → List Field
   | 0, _ => []
